@@ -128,7 +128,7 @@ def gen_cases(ctx):
     rng = ctx.rng("cases")
     q = ctx.quick
     sh, ns = ctx.shard, ctx.nshards
-    plan = [(2, 1, None)] if q else [(1, 0, None), (2, 1, None), (3, 2, None), (2, 4, "sigkill"), (3, 0, "sigkill"), (1, 2, None), (2, 0, "sigkill"), (1, 1, "sigkill"),
+    plan = [(2, 1, None), (2, 3, "sigkill")] if q else [(1, 0, None), (2, 1, None), (3, 2, None), (2, 4, "sigkill"), (3, 0, "sigkill"), (1, 2, None), (2, 0, "sigkill"), (1, 1, "sigkill"),
                                      (2, 1, "KeyboardInterrupt"), (2, 2, "SystemExit(2)")]
     for j, (nw, kth, how) in enumerate(plan):
         if q or j % ns == sh:
@@ -220,6 +220,7 @@ def floors(mon, ctx):
     mon.floor("exhaustive fault x schedule cases", mon.counters["exhaustive_fault_x_schedule_cases"], 64 * 24 if ctx.quick else 256 * 360)
     mon.floor("in-process runs with marked items", mon.counters["inproc_runs_with_marked_items"], 200)
     mon.floor("in-process simulated deaths", mon.counters["inproc_death_runs"], 20)
-    mon.floor("real death runs completed", mon.counters["spawned_death_runs_completed"], 1)
+    mon.floor("real death runs completed", mon.counters["spawned_death_runs_completed"], 2)
+    mon.floor("ways a real worker died (os._exit, SIGKILL)", len(mon.classes["spawned_death_how"]), 2)
     mon.floor("raising items in one real spawned run", mon.counters["spawned_raising_items"], 2000)
     mon.floor("fault kinds", len(mon.classes["marks"]), 2)
